@@ -65,6 +65,21 @@ theorem src_moreau_l1 (w σ n t x : K) (hσ : 0 < σ) (hn : 0 < n) :
 theorem src_moreau_l2 (w σ n t x : K) (hσ : 0 < σ) (hn : 0 < n) :
     x = M.Src.prox_l2_prox w σ n x t + σ * M.Src.prox_l2_prox_conj w n (x / σ) (1 / σ) t := by
   rw [src_l2_prox, src_l2_prox_conj]; exact moreau_l2 w σ n t x hσ hn
+/-- the per-element values in the source of `L1Norm.forward` / `L2NormSquared.forward` (`value = …`; the `mean` / `sum` over `dim` that
+follows is pinned as source text by the translator and modelled by `funForward`) are `|w(x − t)|` and `|w(x − t)|²` … -/
+theorem src_l1_value (w t x : K) : M.Src.prox_l1_value w x t = l1ValEl w t x := M.SrcL.value_l1_eq w t x
+theorem src_l2_value (w t x : K) : M.Src.prox_l2_value w x t = l2ValEl w t x := M.SrcL.value_l2_eq w t x
+/-- … so the minimiser statement holds entirely in terms of what the source contains: the `prox` formula of the source minimises
+`σ·value/n + ½(x − p)²` with the `value` formula of the source, for every weight, target, `σ ≥ 0` and divisor `n > 0` -/
+theorem src_l1_argmin_closed (w σ n t x p : K) (hσ : 0 ≤ σ) (hn : 0 < n) :
+    σ * (M.Src.prox_l1_value w (M.Src.prox_l1_prox x t w σ n) t / n) + (x - M.Src.prox_l1_prox x t w σ n) ^ 2 / 2
+      ≤ σ * (M.Src.prox_l1_value w p t / n) + (x - p) ^ 2 / 2 := by
+  rw [src_l1_value, src_l1_value]; exact src_l1_prox_argmin w σ n t x p hσ hn
+theorem src_l2_argmin_closed (w σ n t x p : K) (hσ : 0 ≤ σ) (hn : 0 < n) :
+    σ * (M.Src.prox_l2_value w (M.Src.prox_l2_prox w σ n x t) t / n) + (x - M.Src.prox_l2_prox w σ n x t) ^ 2 / 2
+      ≤ σ * (M.Src.prox_l2_value w p t / n) + (x - p) ^ 2 / 2 := by
+  rw [src_l2_value, src_l2_value]; exact src_l2_prox_argmin w σ n t x p hσ hn
+
 example : M.Src.prox_l1_prox (5 : Rat) 1 2 1 1 = 3 ∧ M.Src.prox_l2_prox (1 : Rat) 1 1 6 0 = 2 := by decide +kernel
 
 /-- the generic fallback *is* Moreau's identity for any prox (used by `L1NormViewAsReal`) -/
